@@ -1,1 +1,165 @@
-import BigtreeModel.Basic
+import BigtreeModel.Store
+import BigtreeProofs.Lemmas.StoreStep
+/-!
+# C01 — tree links stay a well-formed forest under every mutation history
+
+Model: `BigtreeModel/Store.lean` (statement-level model of `BaseNode`/`Node`'s setters).
+`Store.WF` = W1 (`up`: a node with parent `p` is listed by `p`), W2 (`down`: a listed child names
+that node as parent), W3 (`nodup`: listed once), W4 (`acyc`: walking parents terminates),
+W5 (`range`: links only between existing nodes).
+-/
+
+namespace C01
+open Store
+
+/-- a concrete non-trivial history used by the non-vacuity examples: node 0 gets children 1,2,3;
+3 moves under 1; a failing children assignment; 2 becomes a root -/
+def demoOps : List Op :=
+  [.setChildren 0 [1, 2, 3] .none, .setParent 3 (some 1) .none, .setChildren 2 [3, 1] .post, .lshift 2 none .none]
+def demoCfg : Cfg := { assertions := true, node := false }
+def demo : Store := run demoCfg (init 5 (fun _ => []) ['/']) demoOps
+
+/-- freshly constructed nodes form a forest -/
+theorem wf_init (n : Nat) (names : Nat → Str) (sep : Str) : WF (init n names sep) :=
+  Store.wf_init n names sep
+
+/-- every call (any op, any argument incl. non-node / repeated / self / ancestor, any hook fault)
+maps a forest to a forest -/
+theorem wf_step (c : Cfg) (hc : c.assertions = true) (s : Store) (hw : WF s) (op : Op) :
+    WF (step c s op).1 :=
+  Store.wf_step hw c hc op
+
+/-- every reachable state is a forest -/
+theorem wf_run (c : Cfg) (hc : c.assertions = true) (n : Nat) (names : Nat → Str) (sep : Str)
+    (ops : List Op) : WF (run c (init n names sep) ops) :=
+  Store.wf_run (Store.wf_init n names sep) c hc ops
+
+example : WF demo := wf_run demoCfg rfl 5 _ _ demoOps
+example : demo.children 0 = [1] ∧ demo.children 1 = [3] ∧ demo.parent 2 = none := by decide
+
+/-- fuel lemma: the executable ancestor walk with fuel `n` finds exactly the proper ancestors -/
+theorem anc_complete (s : Store) (hw : WF s) (x a : Nat) :
+    a ∈ anc s s.n x ↔ ProperAncestor s a x :=
+  Store.anc_complete hw x a
+
+example : ProperAncestor demo 0 3 := (anc_complete demo (wf_run demoCfg rfl 5 _ _ demoOps) 3 0).1 (by decide)
+
+/-- self-loop, ancestor loop, non-node parent; self, ancestor, repeated or non-node member: rejected -/
+theorem reject_loops (c : Cfg) (hc : c.assertions = true) (s : Store) (hw : WF s) (v : Nat) (f : Fault) :
+    (∀ p, (p = v ∨ ProperAncestor s v p ∨ s.n ≤ p) → (setParent c s v (some p) f).2 = .rej) ∧
+    (∀ cs, ((∃ x ∈ cs, x = v ∨ ProperAncestor s x v ∨ s.n ≤ x) ∨ ¬ cs.Nodup) →
+      (setChildren c s v cs f).2 = .rej) := by
+  constructor
+  · intro p hp
+    cases ho : (setParent c s v (some p) f).2 with
+    | rej => rfl
+    | ok =>
+      exfalso
+      obtain ⟨_, _, hg, _⟩ := setParent_ok_eq c v (some p) f ho
+      obtain ⟨h1, h2⟩ := hg hc
+      have hr := (checkParentLoop_iff hw v p).1 h2
+      rcases hp with rfl | hp | hp
+      · exact hr (Reach.refl _)
+      · exact hr (reach_iff.2 (Or.inr hp))
+      · simp [checkParentType] at h1; omega
+  · intro cs hcs
+    cases ho : (setChildren c s v cs f).2 with
+    | rej => rfl
+    | ok =>
+      exfalso
+      obtain ⟨_, _, hg, _⟩ := setChildren_ok_eq hw c v cs f (by simp [hc]) ho
+      obtain ⟨hn, h⟩ := (checkChildrenLoop_iff hw v cs).1 hg
+      rcases hcs with ⟨x, hx, hbad⟩ | hnd
+      · rcases hbad with rfl | hp | hp
+        · exact (h _ hx).2 (Reach.refl _)
+        · exact (h x hx).2 (reach_iff.2 (Or.inr hp))
+        · have := (h x hx).1; omega
+      · exact hnd hn
+
+example : (setParent demoCfg demo 0 (some 3) .none).2 = .rej := by decide
+example : (setChildren demoCfg demo 3 [4, 4] .none).2 = .rej := by decide
+
+/-- effect of an accepted `v.parent = np`: every child list is the old one minus `v` (order kept), the
+new parent's list gets `v` appended as last child; only `v`'s parent link changes -/
+theorem setParent_ok (c : Cfg) (s : Store) (hw : WF s) (v : Nat) (np : Option Nat) (f : Fault)
+    (h : (setParent c s v np f).2 = .ok) :
+    let s' := (setParent c s v np f).1
+    (∀ x, s'.parent x = if x = v then np else s.parent x) ∧
+    (∀ x, s'.children x = if np = some x then (s.children x).erase v ++ [v] else (s.children x).erase v) := by
+  obtain ⟨he, _⟩ := setParent_ok_eq c v np f h
+  simp only [he]
+  refine ⟨fun x => rfl, fun x => ?_⟩
+  rw [reparent_children]
+  by_cases hx : s.parent v = some x
+  · simp [hx]
+  · have : v ∉ s.children x := fun hm => hx (hw.down x v hm)
+    simp [hx, List.erase_of_not_mem this]
+
+example : (setParent demoCfg demo 4 (some 0) .none).2 = .ok := by decide
+
+/-- effect of an accepted `v.children = cs`: `v` lists exactly `cs` in the given order, its previous
+children that are not re-listed become roots, every other list loses the stolen nodes (order kept) -/
+theorem setChildren_ok (c : Cfg) (hc : c.assertions = true) (s : Store) (hw : WF s) (v : Nat) (cs : List Nat)
+    (f : Fault) (h : (setChildren c s v cs f).2 = .ok) :
+    let s' := (setChildren c s v cs f).1
+    s'.children v = cs ∧
+    (∀ x, x ≠ v → s'.children x = (s.children x).filter fun y => !cs.contains y) ∧
+    (∀ x, s'.parent x = if x ∈ cs then some v else if s.parent x = some v then none else s.parent x) := by
+  obtain ⟨he, _⟩ := setChildren_ok_eq hw c v cs f (by simp [hc]) h
+  simp only [he]
+  refine ⟨by simp [adopted], fun x hx => by simp [adopted, hx], fun x => rfl⟩
+
+example : (setChildren demoCfg demo 4 [3, 0] .none).2 = .ok := by decide
+
+/-- effect of `del v.children`: the former children become roots, nothing else changes -/
+theorem delChildren_ok (s : Store) (hw : WF s) (v : Nat) :
+    (delChildren s v).children v = [] ∧
+    (∀ x, x ≠ v → (delChildren s v).children x = s.children x) ∧
+    (∀ x, (delChildren s v).parent x = if s.parent x = some v then none else s.parent x) := by
+  rw [delChildren_eq hw]
+  exact ⟨by simp [detached], fun x hx => by simp [detached, hx], fun x => rfl⟩
+
+/-- effect of `del p[name]`: without a child of that name nothing happens; otherwise the (unique)
+child of that name is detached exactly as by `child.parent = None` -/
+theorem delItem_ok (c : Cfg) (s : Store) (p : Nat) (nm : Str) (f : Fault)
+    (h : (delItem c s p nm f).2 = .ok) :
+    ((∀ x ∈ s.children p, s.name x ≠ nm) ∧ (delItem c s p nm f).1 = s) ∨
+    (∃ ch ∈ s.children p, s.name ch = nm ∧ (delItem c s p nm f).1 = reparent s ch none) := by
+  unfold delItem at h ⊢
+  cases hf : findChildByName s p nm with
+  | none => simp [hf] at h
+  | some r =>
+    rw [hf] at h
+    unfold findChildByName at hf
+    cases r with
+    | none =>
+      left
+      refine ⟨?_, rfl⟩
+      split at hf
+      · rename_i heq
+        intro x hx hn
+        have : x ∈ (s.children p).filter fun c => s.name c == nm := List.mem_filter.2 ⟨hx, by simp [hn]⟩
+        rw [heq] at this; cases this
+      · simp at hf
+      · simp at hf
+    | some ch =>
+      right
+      split at hf
+      · simp at hf
+      · rename_i c' heq
+        simp at hf; subst hf
+        have hm : c' ∈ (s.children p).filter fun c => s.name c == nm := by rw [heq]; simp
+        have hm' := List.mem_filter.1 hm
+        refine ⟨c', hm'.1, by simpa using hm'.2, ?_⟩
+        exact (setParent_ok_eq c c' none f h).1
+      · simp at hf
+
+/-- `sort` permutes one child list and changes nothing else -/
+theorem sort_perm (s : Store) (v : Nat) (ranks : List Nat) (rev : Bool) :
+    let s' := sortChildren s v ranks rev
+    (s'.children v).Perm (s.children v) ∧ (∀ x, x ≠ v → s'.children x = s.children x) ∧ s'.parent = s.parent :=
+  ⟨sortChildren_perm s v ranks rev, fun x hx => by simp [sortChildren, hx], rfl⟩
+
+example : (sortChildren demo 0 [0, 2, 1, 0] true).children 0 = [1] := by decide
+
+end C01
